@@ -330,20 +330,23 @@ where
         let mut left_cumulative = cdf.next().expect("cdf is not empty");
         let cdf = cdf.chain(core::iter::once(wrapping_pow2(PRECISION)));
 
-        let symbol_table = symbols
-            .into_iter()
-            .zip(cdf)
-            .map(|(symbol, right_cumulative)| {
-                let probability = right_cumulative
-                    .wrapping_sub(&left_cumulative)
-                    .into_nonzero()
-                    .expect("quantization is leaky");
-                let old_left_cumulative = left_cumulative;
-                left_cumulative = right_cumulative;
-                (symbol, old_left_cumulative, probability)
-            });
+        let mut symbols = symbols.into_iter();
+        let mut symbol_table = Vec::with_capacity(probabilities.len());
+        for right_cumulative in cdf {
+            let symbol = symbols.next().ok_or(())?;
+            let probability = right_cumulative
+                .wrapping_sub(&left_cumulative)
+                .into_nonzero()
+                .expect("quantization is leaky");
+            symbol_table.push((symbol, left_cumulative, probability));
+            left_cumulative = right_cumulative;
+        }
+        if symbols.next().is_some() {
+            // `symbols` and `probabilities` have different lengths.
+            return Err(());
+        }
 
-        Ok(Self::from_symbol_table(symbol_table))
+        Ok(Self::from_symbol_table(symbol_table.into_iter()))
     }
 
     /// Deprecated constructor.
